@@ -117,12 +117,12 @@ def unit_timer(ctx):
     from golem.core.optimisers.timer import OptimisationTimer, Timer
     cases, meta = [], []
     thorough = ctx.tier == 'thorough'
-    timeouts = [None, Fraction(-1), Fraction(0), Fraction(1, 4), Fraction(1, 2), Fraction(1), Fraction(2), Fraction(3)]
+    timeouts = [None, Fraction(-1), Fraction(-1, 8), Fraction(0), Fraction(1, 4), Fraction(1, 2), Fraction(1), Fraction(2), Fraction(3)]
     inits = [Fraction(0), Fraction(1, 4), Fraction(1)]
     iters = [None, 0, 1, 2, 3, 4, 7]
     minutes_grid = QUARTERS
     if thorough:
-        timeouts += [Fraction(-1, 8), Fraction(1, 8), Fraction(3, 4), Fraction(5, 2), Fraction(4), Fraction(6)]
+        timeouts += [Fraction(1, 8), Fraction(3, 4), Fraction(5, 2), Fraction(4), Fraction(6)]
         iters += [5, 6, 12]
         minutes_grid = [Fraction(k, 8) for k in range(0, 49)]
     grid = list(itertools.product(timeouts, inits, minutes_grid, iters, [False, True]))
@@ -751,7 +751,8 @@ def make_configs(ctx):
     """structured sample of the documented option space; never an unbounded run: a configuration
     has a generation limit or a tiny timeout"""
     rng = ctx.rng
-    n = ctx.budget(56, 480)
+    # an escalated search (ctx.scale = 4) at most doubles the number of real runs: wall time stays bounded
+    n = int(ctx.pick(56, 480) * min(ctx.scale, 2))
     kinds = list(optrun.OPTIMISERS)
     out = []
     nogs = [None, 0, 1, 2, 5]
@@ -933,6 +934,9 @@ def run(ctx):
         'times on the correspondence grids are multiples of 7.5 s so that the float arithmetic of the code is exact where it decides',
         'timedelta.seconds wraps after one day: the stagnation-time criterion is modelled with that wrap (not reachable in practice)',
     ]
+    # an escalated search (after a disagreement) is capped at twice the volume: the whole check stays within
+    # a few minutes even when every limit of the tree under test is broken
+    ctx.scale = min(ctx.scale, 2)
     started = start_runs(ctx)
     try:
         groups = [('timer', unit_timer), ('stop', unit_stop), ('grouped', unit_grouped), ('sizes', unit_sizes)]
